@@ -486,3 +486,17 @@ package route
 //@   ensures p != nil && p.BGPPath != nil && p.BGPPath.BGPPathA != nil ==> *result.BGPPath.BGPPathA == *p.BGPPath.BGPPathA
 //@   ensures p != nil && p.BGPPath != nil && p.BGPPath.ASPath != nil ==> verif_sameelems(*result.BGPPath.ASPath, *p.BGPPath.ASPath)
 //@   modifies nothing
+
+// Properties C25 / C26 (see routingtable/zz_contracts_verif.go for what is
+// decided): the route's own mutex is the innermost lock.
+// (The path list is protected partly by this mutex and partly by the lock of
+// the table that owns the route; no single-mutex `guarded` discipline describes
+// it, so none is declared.)
+//@ locklevel Route.mu 95
+
+//@ contract (*Route).ECMPPaths, (*Route).AddPath, (*Route).RemovePath, (*Route).PathSelection, (*Route).Equal
+//@   props C25
+//@   nosafety
+//@   nilrecv
+//@   acquires 95
+//@   locks C25
